@@ -39,6 +39,12 @@ func projectEndState(r *Runner) map[string]any {
 		for t, c := range engine.Conditions(o) {
 			conds[t] = c.Status
 		}
+		if conds["Archived"] == "True" {
+			// C06: InTransition may only be cleared by a pass that saw everything under control; a revision archived in the
+			// middle of (re-)taking over its objects therefore keeps InTransition=True for good. Whether that was the case at
+			// the moment of archival is history, not desired state: not part of the end state compared here.
+			delete(conds, "InTransition")
+		}
 		p := map[string]any{"conds": conds, "deleting": kubesim.MetaString(o, "deletionTimestamp") != "", "finalizers": finalizers(o)}
 		switch k.Kind {
 		case "ObjectSet", "ClusterObjectSet":
